@@ -225,6 +225,19 @@ func buildTriIndexes(tris []*model3d.Triangle) []triIndex {
 		m.Add(t)
 	}
 	out = append(out, triIndex{"MeshToCollider", model3d.MeshToCollider(m)})
+	// the same halving over a list of colliders (here: the triangles themselves, grouped and in input order)
+	for _, v := range []struct {
+		name string
+		ts   []*model3d.Triangle
+	}{{"GroupedCollidersToCollider(GroupTriangles)", g}, {"GroupedCollidersToCollider(input order)", tris}} {
+		cs := make([]model3d.Collider, len(v.ts))
+		for i, t := range v.ts {
+			cs[i] = t
+		}
+		if mc, ok := model3d.GroupedCollidersToCollider(cs).(model3d.MultiCollider); ok {
+			out = append(out, triIndex{v.name, mc})
+		}
+	}
 	return out
 }
 
@@ -804,6 +817,12 @@ func checkSegSet(r *ev.Run, set []int) {
 				r.Eval(1)
 				if d := model2d.MeshToSDF(m).SDF(o); math.Abs(d) != want {
 					viol("2d.MeshToSDF", "nearest-distance", fmt.Sprintf("point %v: |SDF|=%v, minimum over segments %v", o, math.Abs(d), want))
+				}
+				if d := model2d.GroupedSegmentsToSDF(g).SDF(o); math.Abs(d) != want {
+					viol("2d.GroupedSegmentsToSDF", "nearest-distance", fmt.Sprintf("point %v: |SDF|=%v, minimum over segments %v", o, math.Abs(d), want))
+				}
+				if d := model2d.GroupedSegmentsToSDF(append([]*model2d.Segment{}, ss...)).SDF(o); math.Abs(d) != want {
+					viol("2d.GroupedSegmentsToSDF(input order)", "nearest-distance", fmt.Sprintf("point %v: |SDF|=%v, minimum over segments %v", o, math.Abs(d), want))
 				}
 			}
 		}
